@@ -164,6 +164,25 @@ def run_gate(spec):
                     msg=f"{where}: run raised {outcome}: {info['msg']} at {info['where']}",
                     witness=dict(exc=info, alphas=alphas, n=n_obs)))
         out["sigs"].append(["gate", estimator, alphas[0], max(-2, min(3, n_obs - math.ceil(need))), outcome])
+    # history on ONE client: an earlier request that needed many more units (stricter level, other estimator; it may
+    # itself have succeeded or raised) must not raise the bar of a later request
+    client = cm.ModelClient()
+    for first_n in (45, 5):
+        el_a, feed_a, call_a, _ = clean_case(spec, "nonparametric", first_n, [0.95], salt=50 + first_n)
+        with harness.patched() as p:
+            harness.run_estimates(el_a, feed_a, call_a, client=client)
+        el_b, feed_b, call_b, _ = clean_case(spec, estimator, max(nmin, 1), alphas, salt=60 + first_n)
+        with harness.patched() as p:
+            harness.fast_boot_sigma(p, 100)
+            res_b, exc_b = harness.run_estimates(el_b, feed_b, call_b, client=client)
+        out["counters"]["gate_history_runs"] = out["counters"].get("gate_history_runs", 0) + 1
+        if exc_b is not None:
+            info = harness.exc_info(exc_b)
+            out["violations"].append(dict(
+                key=f"C14/gate-history/{estimator}/enough-units-but-{info['type']}",
+                msg=f"{estimator} alphas={alphas} with {max(nmin, 1)} reporting units (its minimum) on a client that "
+                    f"earlier ran nonparametric [0.95] with {first_n} units: {info['type']}: {info['msg']}",
+                witness=dict(exc=info)))
     out["nontrivial"] = True
     if spec["i"] % 9 == 0:
         out["sample"] = dict(part="gate", estimator=estimator, alphas=alphas, minimum=nmin, judged=out["sigs"])
